@@ -301,6 +301,9 @@ class MultiOutputStep(Bounded):
             rc, out = make()
             if rc != 0 or 'cc ' in out or 'gen.sh' in out:
                 return self.fail(case, raw, 'second_build_does_nothing', output=out[-400:])
+            if make('-q')[0] != 0:
+                return self.fail(case, raw, 'up_to_date_right_after_the_build', question_mode_exit=make('-q')[0],
+                                 would_run=make('-n')[1][-300:])
             import time
             time.sleep(0.05)            # modification times have nanosecond resolution here
             w('value.txt', '4\n')
